@@ -193,7 +193,10 @@ impl Observer {
                 format!("slot {slot} finalized ({}) at node {node} but implicitly skipped at node {other}", hx(hash)),
             );
         }
-        if self.skip_certified.contains_key(&slot) {
+        // Only *direct* finalization excludes a skip certificate: an ancestor that is finalized
+        // through a descendant may legitimately sit in a slot that is both notar-fallback- and
+        // skip-certified (fallback votes make both certificates reachable with <20% Byzantine).
+        if direct && self.skip_certified.contains_key(&slot) {
             kernel::violation(
                 "C01",
                 "agreement:finalized-and-skip-certified",
@@ -358,7 +361,8 @@ impl Observer {
                                     CertKind::Skip => {
                                         kernel::probe("certs_skip");
                                         self.skip_certified.entry(slot).or_insert(rec.at_ms);
-                                        if let Some((h, node, _)) = self.finalized.get(&slot) {
+                                        let direct = (0..self.n).find(|i| self.fin_times[*i].contains_key(&slot));
+                                        if let (Some((h, _, _)), Some(node)) = (self.finalized.get(&slot), direct) {
                                             kernel::violation(
                                                 "C01",
                                                 "agreement:finalized-and-skip-certified",
